@@ -191,3 +191,143 @@ Proof.
   cbv zeta. repeat split; try (left; reflexivity); try (right; reflexivity); try lia;
     try (repeat constructor; discriminate); try (vm_compute; reflexivity).
 Qed.
+
+(* ------------------------------------------------------------------------------------ *)
+(* THE TIE TO THE SOURCE TEXT (DESIGN 2.4 (a)).  Gen/*.v is rewritten from
+   /repo/src/cr/cube/{matrix,stripe}/cubemeasure.py on every check by the ast translator; the
+   theorems below say that what the source SAYS NOW ([teval] of the translated term,
+   Base/Tensor.v), for the class the factory picks for a (rows, columns) pair, IS the extractor
+   the theorems above are about -- result shape and every in-range cell (or "None" exactly
+   where the model says the margin is undefined), for all tensors and sizes.  [None] on the
+   left = the translator could not read the method (then only the correspondence ties it).
+   A change of meaning in the source breaks these obligations (Proofs/GenAgree.v fails). *)
+From Coq Require Import String.
+From CC Require Import Base.Tensor Gen.CubeCountsSrc Gen.StripeCountsSrc Gen.Tables
+     Proofs.GenAgreeTac Proofs.GenAgreeBases.
+
+Theorem C02_gen_row_bases :
+  match src_CubeCounts_dispatch with
+  | Some D => forall rc cc,
+      meth src_methods (dict_pick (tag rc, tag cc) (fst D) (snd D)) "row_bases"
+        (fun e => forall V nr nc sr sc,
+           agrees2 (teval (envC (shape_of rc cc nr nc sr sc) V) e) nr nc (row_bases_of V nc sc rc cc))
+  | None => True
+  end.
+Proof. exact gen_dispatch_row_bases. Qed.
+Print Assumptions C02_gen_row_bases.
+
+Theorem C02_gen_column_bases :
+  match src_CubeCounts_dispatch with
+  | Some D => forall rc cc,
+      meth src_methods (dict_pick (tag rc, tag cc) (fst D) (snd D)) "column_bases"
+        (fun e => forall V nr nc sr sc,
+           agrees2 (teval (envC (shape_of rc cc nr nc sr sc) V) e) nr nc (column_bases_of V nr sr rc cc))
+  | None => True
+  end.
+Proof. exact gen_dispatch_column_bases. Qed.
+Print Assumptions C02_gen_column_bases.
+
+Theorem C02_gen_table_bases :
+  match src_CubeCounts_dispatch with
+  | Some D => forall rc cc,
+      meth src_methods (dict_pick (tag rc, tag cc) (fst D) (snd D)) "table_bases"
+        (fun e => forall V nr nc sr sc,
+           agrees2 (teval (envC (shape_of rc cc nr nc sr sc) V) e) nr nc (table_bases_of V nr nc sr sc rc cc))
+  | None => True
+  end.
+Proof. exact gen_dispatch_table_bases. Qed.
+Print Assumptions C02_gen_table_bases.
+
+Theorem C02_gen_rows_base :
+  match src_CubeCounts_dispatch with
+  | Some D => forall rc cc,
+      meth src_methods (dict_pick (tag rc, tag cc) (fst D) (snd D)) "rows_base"
+        (fun e => forall V nr nc sr sc,
+           agrees_opt1 (teval (envC (shape_of rc cc nr nc sr sc) V) e) nr (rows_base_of V nc rc cc))
+  | None => True
+  end.
+Proof. exact gen_dispatch_rows_base. Qed.
+Print Assumptions C02_gen_rows_base.
+
+Theorem C02_gen_columns_base :
+  match src_CubeCounts_dispatch with
+  | Some D => forall rc cc,
+      meth src_methods (dict_pick (tag rc, tag cc) (fst D) (snd D)) "columns_base"
+        (fun e => forall V nr nc sr sc,
+           agrees_opt1 (teval (envC (shape_of rc cc nr nc sr sc) V) e) nc (columns_base_of V nr rc cc))
+  | None => True
+  end.
+Proof. exact gen_dispatch_columns_base. Qed.
+Print Assumptions C02_gen_columns_base.
+
+Theorem C02_gen_rows_table_base :
+  match src_CubeCounts_dispatch with
+  | Some D => forall rc cc,
+      meth src_methods (dict_pick (tag rc, tag cc) (fst D) (snd D)) "rows_table_base"
+        (fun e => forall V nr nc sr sc,
+           agrees_opt1 (teval (envC (shape_of rc cc nr nc sr sc) V) e) nr (rows_table_base_of V nr nc sr rc cc))
+  | None => True
+  end.
+Proof. exact gen_dispatch_rows_table_base. Qed.
+Print Assumptions C02_gen_rows_table_base.
+
+Theorem C02_gen_columns_table_base :
+  match src_CubeCounts_dispatch with
+  | Some D => forall rc cc,
+      meth src_methods (dict_pick (tag rc, tag cc) (fst D) (snd D)) "columns_table_base"
+        (fun e => forall V nr nc sr sc,
+           agrees_opt1 (teval (envC (shape_of rc cc nr nc sr sc) V) e) nc (columns_table_base_of V nr nc sc rc cc))
+  | None => True
+  end.
+Proof. exact gen_dispatch_columns_table_base. Qed.
+Print Assumptions C02_gen_columns_table_base.
+
+Theorem C02_gen_table_base :
+  match src_CubeCounts_dispatch with
+  | Some D => forall rc cc,
+      meth src_methods (dict_pick (tag rc, tag cc) (fst D) (snd D)) "table_base"
+        (fun e => forall V nr nc sr sc,
+           agrees_opt0 (teval (envC (shape_of rc cc nr nc sr sc) V) e) (table_base_of V nr nc rc cc))
+  | None => True
+  end.
+Proof. exact gen_dispatch_table_base. Qed.
+Print Assumptions C02_gen_table_base.
+
+(* strands: bases and scalar table base of the three stripe classes *)
+Theorem C02_gen_strand_bases :
+  match ssrc_CatCubeCounts_bases with
+  | Some e => forall V n s, agrees1 (teval (envS [n] V) e) n (stripe_bases V n s CCat)
+  | None => True
+  end /\
+  match ssrc_MrCubeCounts_bases with
+  | Some e => forall V n s, agrees1 (teval (envS [n; s] V) e) n (stripe_bases V n s CMr)
+  | None => True
+  end /\
+  match ssrc_NumArrCubeCounts_bases with
+  | Some e => forall V n s, agrees1 (teval (envS [n] V) e) n (stripe_bases V n s CArr)
+  | None => True
+  end.
+Proof.
+  exact (conj gen_stripe_CatCubeCounts_bases
+        (conj gen_stripe_MrCubeCounts_bases gen_stripe_NumArrCubeCounts_bases)).
+Qed.
+Print Assumptions C02_gen_strand_bases.
+
+Theorem C02_gen_strand_table_base :
+  match ssrc_CatCubeCounts_table_base with
+  | Some e => forall V n, agrees0 (teval (envS [n] V) e) (sc_table_base V n)
+  | None => True
+  end /\
+  match ssrc_MrCubeCounts_table_base with
+  | Some e => forall V n s, agrees_none (teval (envS [n; s] V) e)
+  | None => True
+  end /\
+  match ssrc_NumArrCubeCounts_table_base with
+  | Some e => forall V n, agrees_none (teval (envS [n] V) e)
+  | None => True
+  end.
+Proof.
+  exact (conj gen_stripe_CatCubeCounts_table_base
+        (conj gen_stripe_MrCubeCounts_table_base gen_stripe_NumArrCubeCounts_table_base)).
+Qed.
+Print Assumptions C02_gen_strand_table_base.
